@@ -20,6 +20,8 @@ CFG = {
                           "RpmVerif.C10.historyF_verify", "RpmVerif.C10.historyF_verify_none", "RpmVerif.C10.historyF_keyids",
                           "RpmVerif.C10.historyF_legacy", "RpmVerif.C10.history_verify_discharged", "RpmVerif.C10.history_keyids_discharged",
                           "RpmVerif.C10.history_legacy_discharged", "RpmVerif.C10.pgp_history_verify", "RpmVerif.C10.pgp_history_keyids",
+                          # the two mirrors of verify_signature (C10's verifyWith, C02's verifySignatureS) are one function (AUDIT2 a7)
+                          "RpmVerif.C10.verifyWith_eq_verifySignatureS",
                           "RpmVerif.Pipeline.build_metadata_wf", "RpmVerif.Pipeline.build_payload_digest_ok", "RpmVerif.Pipeline.build_unsigned",
                           "RpmVerif.Pipeline.built_history_total", "RpmVerif.Pipeline.built_history_digests",
                           "RpmVerif.Pipeline.built_history_verify", "RpmVerif.Pipeline.built_history_verify_none",
